@@ -158,7 +158,7 @@ def run_tlc(records, wd, cov, tag):
     for ci, chunk in enumerate(chunks):
         f = os.path.join(wd, "records_%s_%d.ndjson" % (tag, ci))
         core.write_ndjson(f, chunk)
-        t = core.tlc_or_die("CLiteral", cfg="CLiteral", env={"RECORDS": f}, timeout=3000, coverage=True, heap="12g")
+        t = core.tlc_or_die("CLiteral", cfg="CLiteral", env={"RECORDS": f}, timeout=3000, coverage=True, heap="12g", dfs=True)
         done = sum(t.coverage.get(a, (0, 0))[1] for a in ("Finish", "NonPortable", "Reject"))
         if done != len(chunk):
             sys.stderr.write(t.out[-3000:])
@@ -383,7 +383,10 @@ def run(tier, seed):
         pr = verdicts[i]
         obs = {"bad": "wrong-bytes", "mal": "malformed-c", "np": "non-portable-character"}[pr["v"]]
         g = p_of.get(i)
-        rep.disagree(desc_of(j, m["kind"]), obs,
+        d = desc_of(j, m["kind"])
+        if pr["v"] == "np":
+            d["np_char"] = pr["c"]      # the character the spec refuses to read (spec-side observation)
+        rep.disagree(d, obs,
                      {"job": detail_of(j), "emitted": excerpt(m["str_text"], pr["p"] - 1), "emitted_length": len(m["str_text"]),
                       "spec": {"verdict": pr["v"], "bytes_read": pr["k"], "first_mismatch_at_byte": pr["m"], "text_position": pr["p"]},
                       "gcc_reads_as": (str(g)[:400] if g is not None else "not compiled")})
